@@ -10,18 +10,18 @@ use crate::json::J;
 use crate::model::*;
 use crate::rng::Rng;
 
-pub const RULE12: &str = "case = (alphabet, scoring matrix of width 2..6 (thorough 2..8; protein 2..3) with finite non-wildcard entries, uniform or dyadic non-uniform background). The exact distribution is enumerated over all words; for query scores below the minimum (near and far), above the maximum, exactly attainable, just above / below an attainable value and random, EVERY Iteration of approximate_pvalue down to granularity 1e-8 must report 0 <= pmin <= pmax <= 1 with P(S >= s+(M+1)g) <= pmin and pmax <= P(S >= s-(M+2)g) (+-1e-9); where convergence was observed pvalue(s) must equal the converged lower bound. Non-trivial = query inside [min-1, max+1]; distinct = distinct (matrix, background, score).";
+pub const RULE12: &str = "case = (alphabet, scoring matrix of width 2..6 (thorough 2..8; protein 2..3) with finite non-wildcard entries, uniform, dyadic non-uniform or zero-on-some-regular-symbols background; rows strictly positive / negative / with a positive minimum below 0.1). Half of the cases serve all their queries (in shuffled order) from ONE TfmPvalue object, disturbed between queries by other complete or abandoned pvalue / score refinements, which must not change any answer. The exact distribution is enumerated over all words; for query scores below the minimum (near and far), above the maximum, exactly attainable, just above / below an attainable value and random, EVERY Iteration of approximate_pvalue down to granularity 1e-8 must report 0 <= pmin <= pmax <= 1 with P(S >= s+(M+1)g) <= pmin and pmax <= P(S >= s-(M+2)g) (+-1e-9); where convergence was observed pvalue(s) must equal the converged lower bound. Non-trivial = query inside [min-1, max+1]; distinct = distinct (matrix, background, score).";
 
-pub const RULE13: &str = "case = (alphabet, matrix and background as C12, p in (0,1) equal to attainable tail probabilities, between them, and log-uniform). EVERY Iteration of approximate_score down to granularity 1e-8 returns a threshold t with, d = (M+2)g: P(S >= t+d) <= p and, if u is the largest attainable score below t-d, P(S >= u-d) >= p (+-1e-9); score(p) where convergence was observed equals the converged threshold. Non-trivial = p above the smallest attainable tail; distinct = distinct (matrix, background, p).";
+pub const RULE13: &str = "case = (alphabet, matrix, background and object reuse as C12, p in (0,1) equal to attainable tail probabilities, between them, and log-uniform). EVERY Iteration of approximate_score down to granularity 1e-8 returns a threshold t with, d = (M+2)g: P(S >= t+d) <= p and, if u is the largest attainable score below t-d, P(S >= u-d) >= p (+-1e-9); score(p) where convergence was observed equals the converged threshold. Non-trivial = p above the smallest attainable tail; distinct = distinct (matrix, background, p).";
 
 pub const REQUIRED12: &[&str] = &[
     "alphabet.dna", "alphabet.protein", "bg.uniform", "bg.nonuniform", "query.below_min", "query.far_below_min",
     "query.above_max", "query.attainable", "query.attainable_eps", "query.random", "iterations.checked", "converged.observed",
-    "pvalue.checked", "matrix.finite_wildcard_column",
+    "pvalue.checked", "matrix.finite_wildcard_column", "bg.zero_frequency_symbols", "object.reused_after_other_queries", "matrix.row_min_in_(0,0.1)",
 ];
 pub const REQUIRED13: &[&str] = &[
     "alphabet.dna", "alphabet.protein", "bg.uniform", "bg.nonuniform", "p.attainable_tail", "p.between_tails",
-    "p.log_uniform", "iterations.checked", "converged.observed", "score.checked", "lower_side.checked", "matrix.finite_wildcard_column",
+    "p.log_uniform", "iterations.checked", "converged.observed", "score.checked", "lower_side.checked", "matrix.finite_wildcard_column", "bg.zero_frequency_symbols", "object.reused_after_other_queries", "matrix.row_min_in_(0,0.1)",
 ];
 
 pub struct Setup<A: Alphabet> {
@@ -36,7 +36,31 @@ pub struct Setup<A: Alphabet> {
 pub fn setup<A: Alphabet>(rng: &mut Rng, rep: &mut Report, max_m: usize) -> Option<Setup<A>> {
     let k = k_of::<A>();
     let m = rng.range(2, max_m);
-    let (bgv, bg) = if rng.chance(0.5) {
+    let mut zero_freq = false;
+    let (bgv, bg) = if rng.chance(0.12) {
+        // some regular symbols never occur (e.g. an AT-only background): legal, and the words
+        // containing them carry no probability
+        rep.cover("bg.zero_frequency_symbols");
+        zero_freq = true;
+        let n = k - 1;
+        let unit = 64u32;
+        let alive = rng.range(1, (n - 1).min(4));
+        let mut parts = vec![0u32; n];
+        let mut idx: Vec<usize> = (0..n).collect();
+        for i in 0..alive {
+            let j = i + rng.below(n - i);
+            idx.swap(i, j);
+        }
+        let mut left = unit;
+        for (i, &j) in idx[..alive].iter().enumerate() {
+            let v = if i + 1 == alive { left } else if rng.chance(0.4) { (left / (alive - i) as u32).max(1) } else { rng.range(1, (left as usize) - (alive - i - 1)) as u32 };
+            parts[j] = v;
+            left -= v;
+        }
+        let mut bgv: Vec<f32> = parts.iter().map(|&p| p as f32 / unit as f32).collect();
+        bgv.push(0.0);
+        (bgv.clone(), Background::<A>::new(bgv.iter().cloned().collect::<GenericArray<f32, A::K>>()).ok()?)
+    } else if rng.chance(0.5) {
         rep.cover("bg.uniform");
         (uniform_bg(k), Background::<A>::uniform())
     } else {
@@ -44,7 +68,9 @@ pub fn setup<A: Alphabet>(rng: &mut Rng, rep: &mut Report, max_m: usize) -> Opti
         let bgv = dyadic_nonzero_bg(rng, k);
         (bgv.clone(), Background::<A>::new(bgv.iter().cloned().collect::<GenericArray<f32, A::K>>()).ok()?)
     };
-    let (pssm, fam): (ScoringMatrix<A>, &'static str) = if rng.chance(0.7) {
+    // (log-odds under a background with zero entries would have -inf non-wildcard cells, which the
+    // property excludes)
+    let (pssm, fam): (ScoringMatrix<A>, &'static str) = if !zero_freq && rng.chance(0.7) {
         let mut dm = lightmotif::dense::DenseMatrix::<u32, A::K>::new(m);
         for i in 0..m {
             let hi = if rng.chance(0.3) { 4 } else { 30 };
@@ -67,12 +93,21 @@ pub fn setup<A: Alphabet>(rng: &mut Rng, rep: &mut Report, max_m: usize) -> Opti
                 }
             }
             // some rows strictly positive, some strictly negative
-            match rng.below(4) {
+            match rng.below(5) {
                 0 => {
                     let lo = r[..k - 1].iter().cloned().fold(f32::INFINITY, f32::min);
                     for x in r.iter_mut().take(k - 1) {
                         *x += 0.5 - lo;
                     }
+                }
+                4 => {
+                    // strictly positive with a minimum below the coarsest granularity (0.1)
+                    let lo = r[..k - 1].iter().cloned().fold(f32::INFINITY, f32::min);
+                    let target = rng.f32_in(0.002, 0.098);
+                    for x in r.iter_mut().take(k - 1) {
+                        *x += target - lo;
+                    }
+                    rep.cover("matrix.row_min_in_(0,0.1)");
                 }
                 1 => {
                     let hi = r[..k - 1].iter().cloned().fold(f32::NEG_INFINITY, f32::max);
@@ -121,6 +156,78 @@ impl<A: Alphabet> Setup<A> {
 const MIN_G: f64 = 0.5e-8;
 const EPS: f64 = 1e-9;
 
+/// One TfmPvalue object may serve many queries: between two monitored queries the shared object is
+/// disturbed by other public calls (complete and abandoned refinements of both kinds), which must
+/// not change any later answer.
+fn disturb<A: Alphabet>(rng: &mut Rng, rep: &mut Report, st: &Setup<A>, t: &mut TfmPvalue<A, &ScoringMatrix<A>>) -> Result<Vec<usize>, String> {
+    let ex = &st.ex;
+    let n = rng.below(3);
+    let mut ops = Vec::new();
+    for _ in 0..n {
+        let which = rng.below(6);
+        ops.push(which);
+        let r = guard(|| match which {
+            0 => {
+                // converges at the first step
+                let _ = t.pvalue(ex.min() - 50.0);
+            }
+            1 => {
+                let _ = t.pvalue(ex.max() + 50.0);
+            }
+            2 => {
+                let _ = t.pvalue(ex.scores[ex.scores.len() / 2]);
+            }
+            3 => {
+                // abandoned after the first step
+                let _ = t.approximate_pvalue(ex.min() + (ex.max() - ex.min()) * 0.37).next();
+            }
+            4 => {
+                let _ = t.score(0.3);
+            }
+            _ => {
+                let mut it = t.approximate_score(0.01);
+                let _ = it.next();
+                let _ = it.next();
+            }
+        });
+        rep.cover("object.reused_after_other_queries");
+        if let Err(p) = r {
+            return Err(p);
+        }
+    }
+    Ok(ops)
+}
+
+/// the same disturbance on the frozen reference copy (used to classify the known C13 finding on a
+/// reused object: identical histories give identical hash-map layouts, hence identical sums)
+fn disturb_ref<A: Alphabet>(ops: &[usize], st: &Setup<A>, t: &mut crate::tfm_ref::TfmPvalue<A, &ScoringMatrix<A>>) {
+    let ex = &st.ex;
+    for &which in ops {
+        let _ = guard(|| match which {
+            0 => {
+                let _ = t.pvalue(ex.min() - 50.0);
+            }
+            1 => {
+                let _ = t.pvalue(ex.max() + 50.0);
+            }
+            2 => {
+                let _ = t.pvalue(ex.scores[ex.scores.len() / 2]);
+            }
+            3 => {
+                let _ = t.approximate_pvalue(ex.min() + (ex.max() - ex.min()) * 0.37).next();
+            }
+            4 => {
+                let _ = t.score(0.3);
+            }
+            _ => {
+                let mut it = t.approximate_score(0.01);
+                let _ = it.next();
+                let _ = it.next();
+            }
+        });
+    }
+}
+
 fn case12<A: Alphabet>(case: u64, rng: &mut Rng, rep: &mut Report, alpha: &str, max_m: usize) {
     rep.cover(&format!("alphabet.{}", alpha));
     let st = match setup::<A>(rng, rep, max_m) {
@@ -151,14 +258,35 @@ fn case12<A: Alphabet>(case: u64, rng: &mut Rng, rep: &mut Report, alpha: &str, 
     for _ in 0..6 {
         queries.push((ex.min() + (ex.max() - ex.min()) * rng.f64(), "query.random"));
     }
+    let mut shared: Option<TfmPvalue<A, &ScoringMatrix<A>>> = if rng.chance(0.5) { Some(TfmPvalue::new(&st.pssm)) } else { None };
+    if rng.chance(0.5) {
+        // the order of the queries matters to an object that keeps state
+        for i in (1..queries.len()).rev() {
+            let j = rng.below(i + 1);
+            queries.swap(i, j);
+        }
+    }
     for (s, key) in queries {
         rep.eval();
         rep.cover(key);
         if s >= ex.min() - 1.0 && s <= ex.max() + 1.0 {
             rep.nontrivial(st.digest(alpha, s));
         }
+        if let Some(t) = shared.as_mut() {
+            if let Err(p) = disturb(rng, rep, &st, t) {
+                rep.violate(&format!("c12.panic:{}", panic_site(&p)), case, format!("panic in a query on a reused object: {}", p), st.witness(alpha, J::Null));
+                return;
+            }
+        }
         let res = guard(|| {
-            let mut tfmp = TfmPvalue::new(&st.pssm);
+            let mut fresh;
+            let tfmp = match shared.as_mut() {
+                Some(t) => t,
+                None => {
+                    fresh = TfmPvalue::new(&st.pssm);
+                    &mut fresh
+                }
+            };
             let mut its = Vec::new();
             for it in tfmp.approximate_pvalue(s) {
                 let stop = it.converged || it.granularity <= MIN_G * 2.0;
@@ -193,7 +321,8 @@ fn case12<A: Alphabet>(case: u64, rng: &mut Rng, rep: &mut Report, alpha: &str, 
                         .set("pmax", J::f(pmax))
                         .set("exact_lower", J::f(lo))
                         .set("exact_upper", J::f(hi))
-                        .set("converged", J::Bool(it.converged)),
+                        .set("converged", J::Bool(it.converged))
+                        .set("object", J::s(if shared.is_some() { "reused across the queries of this case (with other calls in between)" } else { "fresh" })),
                 )
             };
             if !(pmin >= -EPS && pmax <= 1.0 + noise && pmin <= pmax + EPS) {
@@ -221,8 +350,21 @@ fn case12<A: Alphabet>(case: u64, rng: &mut Rng, rep: &mut Report, alpha: &str, 
                     return;
                 }
                 Ok(pv) => {
-                    if pv != lower {
+                    if shared.is_none() && pv != lower {
                         rep.violate("c12.final_pvalue", case, format!("pvalue({}) = {} but the converged iteration reported {}", s, pv, lower), st.witness(alpha, J::obj().set("score", J::f(s))));
+                        return;
+                    }
+                }
+            }
+            if let Some(t) = shared.as_mut() {
+                // (not compared with `lower` for equality: the hash maps of a reused object iterate in
+                // another order, sums differ in the last place and the exact-equality convergence test
+                // may stop one step earlier or later; every step obeys the bounds of the coarsest one)
+                if let Ok(pv) = guard(|| t.pvalue(s)) {
+                    let lo = ex.sf(s + (m + 1.0) * 0.1);
+                    let hi = ex.sf(s - (m + 2.0) * 0.1);
+                    if pv < lo - noise || pv > hi + noise {
+                        rep.violate("c12.final_pvalue", case, format!("pvalue({}) on the reused object = {} outside [{}, {}] (bounds at granularity 0.1)", s, pv, lo, hi), st.witness(alpha, J::obj().set("score", J::f(s))));
                         return;
                     }
                 }
@@ -260,14 +402,47 @@ fn case13<A: Alphabet>(case: u64, rng: &mut Rng, rep: &mut Report, alpha: &str, 
         ps.push((10f64.powf(-rng.f64() * 6.0).min(0.999), "p.log_uniform"));
     }
     let min_tail = *ex.tail.last().unwrap();
+    let mut shared: Option<TfmPvalue<A, &ScoringMatrix<A>>> = if rng.chance(0.5) { Some(TfmPvalue::new(&st.pssm)) } else { None };
+    let mut shared_ref: Option<crate::tfm_ref::TfmPvalue<A, &ScoringMatrix<A>>> = shared.as_ref().map(|_| crate::tfm_ref::TfmPvalue::new(&st.pssm));
     for (p, key) in ps {
         rep.eval();
         rep.cover(key);
         if p >= min_tail {
             rep.nontrivial(st.digest(alpha, p));
         }
+        if let Some(t) = shared.as_mut() {
+            match disturb(rng, rep, &st, t) {
+                Err(pn) => {
+                    rep.violate(&format!("c13.panic:{}", panic_site(&pn)), case, format!("panic in a query on a reused object: {}", pn), st.witness(alpha, J::Null));
+                    return;
+                }
+                Ok(ops) => disturb_ref(&ops, &st, shared_ref.as_mut().unwrap()),
+            }
+        }
+        // the reference copy goes through the same refinement (same object history)
+        let ref_its: Option<Vec<(f64, f64, bool)>> = shared_ref.as_mut().and_then(|t| {
+            guard(|| {
+                let mut v = Vec::new();
+                for x in t.approximate_score(p) {
+                    let stop = x.converged || x.granularity <= MIN_G * 2.0;
+                    v.push((x.score, x.granularity, x.converged));
+                    if stop {
+                        break;
+                    }
+                }
+                v
+            })
+            .ok()
+        });
         let res = guard(|| {
-            let mut tfmp = TfmPvalue::new(&st.pssm);
+            let mut fresh;
+            let tfmp = match shared.as_mut() {
+                Some(t) => t,
+                None => {
+                    fresh = TfmPvalue::new(&st.pssm);
+                    &mut fresh
+                }
+            };
             let mut its = Vec::new();
             for it in tfmp.approximate_score(p) {
                 let stop = it.converged || it.granularity <= MIN_G * 2.0;
@@ -292,7 +467,7 @@ fn case13<A: Alphabet>(case: u64, rng: &mut Rng, rep: &mut Report, alpha: &str, 
             let t = it.score;
             let d = (m + 2.0) * g;
             let upper_tail = ex.sf(t + d);
-            let wit = |extra: J| st.witness(alpha, J::obj().set("p", J::f(p)).set("granularity", J::f(g)).set("threshold", J::f(t)).set("converged", J::Bool(it.converged)).set("more", extra));
+            let wit = |extra: J| st.witness(alpha, J::obj().set("p", J::f(p)).set("granularity", J::f(g)).set("threshold", J::f(t)).set("converged", J::Bool(it.converged)).set("object", J::s(if shared.is_some() { "reused" } else { "fresh" })).set("more", extra));
             if upper_tail > p + noise {
                 rep.violate("c13.upper_side", case, format!("p {} granularity {}: threshold {} but P(S >= t+d) = {} > p (d = {})", p, g, t, upper_tail, d), wit(J::Null));
                 return;
@@ -305,7 +480,12 @@ fn case13<A: Alphabet>(case: u64, rng: &mut Rng, rep: &mut Report, alpha: &str, 
                     // convergence AND the frozen copy of the reference algorithm (tfm_ref) yields exactly
                     // the same iterations, i.e. the failure is the window limitation inherent to the
                     // reference algorithm and not a deviation of the library from it
-                    let same_as_reference = {
+                    let same_as_reference = if shared.is_some() {
+                        match &ref_its {
+                            Some(v) => v.len() == its.len() && v.iter().zip(its.iter()).all(|(a, b)| a.0 == b.score && a.1 == b.granularity && a.2 == b.converged),
+                            None => false,
+                        }
+                    } else {
                         let r = guard(|| {
                             let mut t = crate::tfm_ref::TfmPvalue::new(&st.pssm);
                             let mut v = Vec::new();
@@ -349,8 +529,21 @@ fn case13<A: Alphabet>(case: u64, rng: &mut Rng, rep: &mut Report, alpha: &str, 
                     return;
                 }
                 Ok(sc) => {
-                    if sc != t {
+                    if shared.is_none() && sc != t {
                         rep.violate("c13.final_score", case, format!("score({}) = {} but the converged iteration reported {}", p, sc, t), st.witness(alpha, J::obj().set("p", J::f(p))));
+                        return;
+                    }
+                }
+            }
+            if let Some(tt) = shared.as_mut() {
+                // (see C12: no equality with the earlier refinement on a reused object)
+                if let Some(r) = shared_ref.as_mut() {
+                    let _ = guard(|| r.score(p));
+                }
+                if let Ok(sc) = guard(|| tt.score(p)) {
+                    let d = (m + 2.0) * 0.1;
+                    if ex.sf(sc + d) > p + noise {
+                        rep.violate("c13.final_score", case, format!("score({}) on the reused object = {} but P(S >= t+d) = {} > p at d = (M+2) x 0.1", p, sc, ex.sf(sc + d)), st.witness(alpha, J::obj().set("p", J::f(p))));
                         return;
                     }
                 }
